@@ -979,6 +979,60 @@ func C18(c *core.Ctx) {
 func c18Selection(c *core.Ctx, rf *ssa.Function) {
 	p := c.P
 	// candidate (hop, cost): key and value of the range over the cost map
+	// the selection written as a sort of the candidates: the candidates are collected by
+	// ranging over a map (random order), so the order function must be total over
+	// (cost, next hop) — a comparison by cost alone, however stable the sort, leaves the
+	// choice among equal-cost next hops to the map's iteration order
+	{
+		p := c.P
+		sorted := false
+		core.InstrsDeep(rf, func(in ssa.Instruction) {
+			cl, ok := in.(*ssa.Call)
+			if !ok {
+				return
+			}
+			g := cl.Call.StaticCallee()
+			if g != nil && g.Origin() != nil {
+				g = g.Origin()
+			}
+			if g == nil || g.Pkg == nil {
+				return
+			}
+			pk, nm := g.Pkg.Pkg.Path(), g.Name()
+			if !((pk == "sort" && (nm == "Slice" || nm == "SliceStable")) || (pk == "slices" && (nm == "SortFunc" || nm == "SortStableFunc"))) || len(cl.Call.Args) != 2 {
+				return
+			}
+			mc, isMC := core.Strip(cl.Call.Args[1]).(*ssa.MakeClosure)
+			var less *ssa.Function
+			if isMC {
+				less, _ = mc.Fn.(*ssa.Function)
+			} else if f, isF := core.Strip(cl.Call.Args[1]).(*ssa.Function); isF {
+				less = f
+			}
+			if less == nil {
+				return
+			}
+			sorted = true
+			nOrd := 0
+			core.Instrs(less, func(x ssa.Instruction) {
+				if b, isB := x.(*ssa.BinOp); isB {
+					switch b.Op {
+					case token.LSS, token.GTR, token.LEQ, token.GEQ, token.EQL, token.NEQ:
+						nOrd++
+					}
+				}
+				if c2, isC := x.(*ssa.Call); isC {
+					if h := c2.Call.StaticCallee(); h != nil && h.Pkg != nil && h.Pkg.Pkg.Path() == "cmp" {
+						nOrd++
+					}
+				}
+			})
+			c.Decide(nOrd >= 2, "R18.4", "deterministic-tie-break:sorted", p.Pos(cl.Pos()), "the order function of the candidate sort compares more than the cost", "RibEntry.refresh sorts its candidates, collected in map iteration order, by one comparison only (the cost): among next hops of equal cost the winner is whichever the map yielded first — the next hop of a destination changes from one refresh to the next, an unchanged advertisement reports a change, and equal-cost neighbours keep re-advertising (ties are not broken the same way every time)")
+		})
+		if sorted {
+			return
+		}
+	}
 	var candHop, candCost ssa.Value
 	core.Instrs(rf, func(in ssa.Instruction) {
 		if e, ok := in.(*ssa.Extract); ok {
